@@ -316,6 +316,19 @@ func cycleResult(logged string) string {
 		if c, ok := m["count"].(float64); ok {
 			return fmt.Sprintf("ok:%d", int(c))
 		}
+		// the count under another name: the one numeric member of the cycle's info line (the name of a log field is no
+		// part of any property)
+		if lvl, _ := m["level"].(string); lvl == "info" {
+			n, found := 0, 0
+			for k, v := range m {
+				if f, ok := v.(float64); ok && k != "time" {
+					n, found = int(f), found+1
+				}
+			}
+			if found == 1 {
+				return fmt.Sprintf("ok:%d", n)
+			}
+		}
 	}
 	return "ok:0"
 }
